@@ -1,0 +1,113 @@
+//! Verification hooks.  Only compiled with `--cfg rescrv_blue_verif`.
+//!
+//! 1. Node heights are an environment answer (they come from a random number generator).  A
+//!    harness may script them so that an exhaustive exploration owns that choice.
+//! 2. An allocation registry:  when enabled, every node allocation is recorded, a released node
+//!    is marked dead and *quarantined* (leaked) instead of freed, and every dereference asserts
+//!    that the node is live.  A dangling iterator therefore fails deterministically instead of
+//!    by luck of the allocator.
+
+use std::collections::{HashMap, VecDeque};
+use std::sync::Mutex;
+use std::sync::atomic::{AtomicBool, AtomicUsize, Ordering};
+
+static FIXED_HEIGHT: AtomicUsize = AtomicUsize::new(0);
+
+#[cfg(not(loom))]
+thread_local! {
+    static HEIGHTS: std::cell::RefCell<VecDeque<usize>> = const { std::cell::RefCell::new(VecDeque::new()) };
+}
+
+#[cfg(loom)]
+loom::thread_local! {
+    static HEIGHTS: std::cell::RefCell<VecDeque<usize>> = std::cell::RefCell::new(VecDeque::new());
+}
+
+/// Every insert in the process uses this height (0 restores the random source) unless the
+/// inserting thread has a script.
+pub fn set_fixed_height(height: usize) {
+    FIXED_HEIGHT.store(height, Ordering::SeqCst);
+}
+
+/// Heights for the next inserts of the calling thread, consumed front to back.
+pub fn script_heights(heights: &[usize]) {
+    HEIGHTS.with(|h| {
+        let mut h = h.borrow_mut();
+        h.clear();
+        h.extend(heights.iter().copied());
+    });
+}
+
+pub(crate) fn scripted_height() -> Option<usize> {
+    if let Some(h) = HEIGHTS.with(|h| h.borrow_mut().pop_front()) {
+        return Some(h);
+    }
+    match FIXED_HEIGHT.load(Ordering::SeqCst) {
+        0 => None,
+        h => Some(h),
+    }
+}
+
+static REGISTRY_ON: AtomicBool = AtomicBool::new(false);
+static REGISTRY: Mutex<Option<HashMap<usize, bool>>> = Mutex::new(None);
+static DEAD_DEREFS: AtomicUsize = AtomicUsize::new(0);
+
+/// Turn the allocation registry on or off.  Turning it on forgets everything recorded before.
+pub fn set_registry(on: bool) {
+    let mut reg = REGISTRY.lock().unwrap();
+    *reg = if on { Some(HashMap::new()) } else { None };
+    REGISTRY_ON.store(on, Ordering::SeqCst);
+    DEAD_DEREFS.store(0, Ordering::SeqCst);
+}
+
+/// Number of dereferences of released nodes observed since the registry was turned on.
+pub fn dead_dereferences() -> usize {
+    DEAD_DEREFS.load(Ordering::SeqCst)
+}
+
+/// (live nodes, released nodes) currently recorded.
+pub fn registry_counts() -> (usize, usize) {
+    let reg = REGISTRY.lock().unwrap();
+    match reg.as_ref() {
+        None => (0, 0),
+        Some(m) => {
+            let live = m.values().filter(|x| **x).count();
+            (live, m.len() - live)
+        }
+    }
+}
+
+pub(crate) fn on_alloc(ptr: usize) {
+    if !REGISTRY_ON.load(Ordering::Relaxed) {
+        return;
+    }
+    if let Some(m) = REGISTRY.lock().unwrap().as_mut() {
+        m.insert(ptr, true);
+    }
+}
+
+/// Returns true when the node must not be freed (it was marked dead and stays allocated).
+pub(crate) fn quarantine(ptr: usize) -> bool {
+    if !REGISTRY_ON.load(Ordering::Relaxed) {
+        return false;
+    }
+    if let Some(m) = REGISTRY.lock().unwrap().as_mut() {
+        m.insert(ptr, false);
+        return true;
+    }
+    false
+}
+
+pub(crate) fn assert_live(ptr: usize) {
+    if !REGISTRY_ON.load(Ordering::Relaxed) {
+        return;
+    }
+    let dead = {
+        let reg = REGISTRY.lock().unwrap();
+        matches!(reg.as_ref().and_then(|m| m.get(&ptr)), Some(false))
+    };
+    if dead {
+        DEAD_DEREFS.fetch_add(1, Ordering::SeqCst);
+        panic!("skipfree: dereference of a released node (use after free)");
+    }
+}
